@@ -130,6 +130,10 @@ def run_case(base, idx, seed, op, shim, sh):
         try:
             mon.call({"op": "init", "layers_dir": layers, "app_dir": os.path.join(root, "app"), "bp_dir": os.path.join(root, "bp")})
             rep = mon.call(request_for(op, name))
+        except vp.ExecutorDied as e:
+            sh.evaluations += 1
+            sh.violation("process-died", "%s on a layer whose path is %s, containing links %r: the process died (status %s) inside the call" % (op, info["top"], info["link_kinds"], e.status), case)
+            return
         finally:
             mon.close()
         post = vp.snapshot(root, skip)
